@@ -171,13 +171,36 @@ def ensureItems (st : St) : List String → St
     if hasName st n then ensureItems st ns
     else ensureItems { st with lines := st.lines ++ [virtUnk n] } ns
 
-/-- append a virtual link for every required path step with no compatible stored link -/
+/-- the record is a stored link that satisfies the step -/
+def fits (s : Link) (q : Rec) : Bool :=
+  match q.linkOf with
+  | some k => k.compatible s.frm s.fo s.to s.too s.ovl
+  | none => false
+
+/-- `Path._link_orient`: "-" when the step walks the link backwards, i.e. it is matched by the complement of the
+    link only (a hairpin link can match a step both ways: it is then taken forwards) -/
+def linkOrient (k s : Link) : String :=
+  if k.compatCompl s.frm s.fo s.to s.too s.ovl && !k.compatDirect s.frm s.fo s.to s.too s.ovl then "-" else "+"
+
+/-- a placeholder link whose overlap is still open takes the overlap a step states for it (read in the direction
+    of the placeholder): `Path._initialize_links` -/
+def adoptOverlap (s : Link) (q : Rec) : Rec :=
+  match q.linkOf with
+  | some k =>
+    if q.virt && k.ovl == .star && s.ovl != .star then
+      { q with fields := q.fields.set 4 (String.ofList (if linkOrient k s == "-" then s.ovl.compl else s.ovl).print) }
+    else q
+  | none => q
+
+/-- for every required path step: the stored link it resolves to (a placeholder among them adopts a stated overlap),
+    or a new placeholder link -/
 def ensureLinks (st : St) : List Link → Except Err St
   | [] => .ok st
   | l :: ls =>
     (ensureSegs st [l.frm, l.to]).bind fun st1 =>
-      if (findLink st1 l).isSome then ensureLinks st1 ls
-      else ensureLinks { st1 with lines := st1.lines ++ [virtLink l] } ls
+      match st1.lines.findIdx? (fits l) with
+      | some i => ensureLinks { st1 with lines := st1.lines.set i (adoptOverlap l (st1.lines.getD i default)) } ls
+      | none => ensureLinks { st1 with lines := st1.lines ++ [virtLink l] } ls
 
 -- ------------------------------------------------------------------ add
 def allowed (v : Ver) : RT → Bool
@@ -383,12 +406,29 @@ def dropItems (gone : List String) (r : Rec) : Rec :=
     { r with fields := [fld r 0, joinStr ' ' items] ++ r.fields.drop 2 }
   | _ => r
 
-/-- remove the lines with the given indices together with all their dependants -/
-def rmIdx (st : St) (seed : List Nat) : St :=
+/-- does a step of a stored path that states an overlap resolve to the record at index `i`? -/
+def supported (lines : List Rec) (i : Nat) : Bool :=
+  lines.any (fun p => p.rt == .P && p.pathSteps.any (fun s => s.ovl != .star && lines.findIdx? (fits s) == some i))
+
+/-- a placeholder link keeps an overlap only as long as a step of a stored path states it
+    (`Path._remove_nonfield_backreferences`) -/
+def resetPlaceholder (lines : List Rec) (p : Rec × Nat) : Rec :=
+  if p.1.virt && p.1.rt == .L && fld p.1 4 != "*" && !supported lines p.2 then
+    { p.1 with fields := p.1.fields.set 4 "*" }
+  else p.1
+
+/-- the lines that remain when the lines with the given indices and all their dependants are taken away -/
+def rmCore (st : St) (seed : List Nat) : St :=
   let dead := cascade st seed
   let gone := dead.filterMap (fun j => (st.lines[j]?).bind Rec.name)
   let kept := (st.lines.zipIdx.filter (fun p => !dead.contains p.2)).map (·.1)
   { st with lines := kept.map (dropItems gone) }
+
+/-- every placeholder link gives up an overlap that no step of a stored path states any more -/
+def resetAll (st : St) : St := { st with lines := st.lines.zipIdx.map (resetPlaceholder st.lines) }
+
+/-- remove the lines with the given indices together with all their dependants -/
+def rmIdx (st : St) (seed : List Nat) : St := resetAll (rmCore st seed)
 
 /-- `Gfa.rm(identifier)` -/
 def rm (st : St) (n : String) : Except Err St :=
